@@ -494,14 +494,30 @@ class IpModel:
                 wi = where(fn, il.node)
                 ok_iter = False
                 pb_seen = None
+                V = None  # term of the node whose two children are pinned in one iteration
                 if M.builtin_call(it, "range") and not it[3]:
+                    # form A: for pos in range(len(PB)): V = PB[:pos]
                     args = it[2]
                     hi = args[0] if len(args) == 1 else args[1] if len(args) == 2 and M.is_const(args[0], 0) else None
                     if hi is not None and M.builtin_call(hi, "len", 1):
                         pb_seen = hi[2][0]
                         ok_iter = True
+                        V = ("sub", pb_seen, ("slice", None, ("loopvar", il.uid, il.iter, ()), None))
+                elif M.builtin_call(it, "enumerate", 1) and not it[3]:
+                    # form B: for pos, _ in enumerate(PB): V = PB[:pos]
+                    pb_seen = it[2][0]
+                    ok_iter = True
+                    V = ("sub", pb_seen, ("slice", None, ("loopvar", il.uid, il.iter, (0,)), None))
+                else:
+                    # form C: prefix = ""; for bit in PB: pin(prefix); prefix += bit
+                    bitv = ("loopvar", il.uid, il.iter, ())
+                    for nme, (pre, posts) in il.carried.items():
+                        if pre == ("const", "") and posts and all(x == ("binop", "+", ("carried", nme, il.uid), bitv) for x in posts):
+                            pb_seen = it
+                            ok_iter = True
+                            V = ("carried", nme, il.uid)
                 rep.ob(cl + ".pin-all-depths", fn.name, ok_iter,
-                       "inner loop iterates %s; expected range(len(prefix_bits)) — every depth 0..len-1" % show(it), wi,
+                       "inner loop iterates %s; expected every depth 0..len-1 of the prefix bits (range(len(bits)), enumerate(bits) or an accumulated prefix)" % show(it), wi,
                        key="%s.pin-all-depths|%s" % (cl, fn.name))
                 if pb_seen is not None:
                     # accept ip_network(x) with or without strict=...
@@ -524,8 +540,7 @@ class IpModel:
                             ident = False
                         kp = M.concat_parts(x.b)
                         if len(kp) == 2 and kp[1][0] == "const" and kp[1][1] in ("0", "1"):
-                            sl = M.slice_of(kp[0])
-                            if sl and pb_seen is not None and sl[0] == pb_seen and sl[1] is None and sl[2] == pos:
+                            if V is not None and kp[0] == V:
                                 keys.add(kp[1][1])
                             else:
                                 keys.add("?" + show(kp[0]))
